@@ -177,6 +177,10 @@ def stepJ (srvMode : Bool) (j : J) (sc : List String × List String) : J :=
       let cobs := (kvOf ob "c").getD "-"
       let req : Proto.Req := ⟨w.code, reqFlags j.n, w.body.length, w.body, w.fds.length⟩
       let bcls := Proto.classify j.bneg req
+      -- two API forms can never reach a handler, whatever was negotiated: SET_LOG_FD has no arm in the request server
+      -- and no handler method; SET_LOG_BASE without a region is sent as a bare u64, which the server refuses
+      if w.code == 7 && cobs == "-" then fail "C02-set_log_fd-has-no-handler" else
+      if w.code == 6 && w.fds.isEmpty && cobs == "-" then fail "C02-set_log_base-without-region-not-delivered" else
       if bcls != .accept then { j1 with clean := false } else
       let (nm, args, pl, usesFiles) := Proto.expectedCall req
       let expFds : List String :=
